@@ -618,6 +618,29 @@ int main(int argc, char **argv)
                 return 2;
         }
         std::string cmd = argv[1];
+        if (cmd == "replay" && argc > 2) {
+                // a replay file found under another library flavour (dbg: live asserts, asan) names it: hand over to that flavour's binary
+                Json pj;
+                if (Json::parse(read_file(argv[2]), pj)) {
+                        std::string fl = pj.gets("flavour");
+                        if (!fl.empty() && fl != SIM_FLAVOUR && fl.find('/') == std::string::npos) {
+                                char self[4096];
+                                ssize_t n = readlink("/proc/self/exe", self, sizeof self - 1);
+                                if (n > 0) {
+                                        self[n] = 0;
+                                        std::string dir = self;
+                                        dir = dir.substr(0, dir.rfind('/'));
+                                        dir = dir.substr(0, dir.rfind('/'));
+                                        std::string other = dir + "/" + fl + "/isal-sim";
+                                        if (access(other.c_str(), X_OK) == 0) {
+                                                execv(other.c_str(), argv);
+                                                perror("execv");
+                                        } else
+                                                fprintf(stderr, "NOTE replay file was found under flavour '%s' (%s is not built: run `make FLAVOUR=%s`); replaying under '%s'\n", fl.c_str(), other.c_str(), fl.c_str(), SIM_FLAVOUR);
+                                }
+                        }
+                }
+        }
         if (cmd == "merge-sigs")
                 return cmd_merge(argc, argv);
         g_arena.init(224ull << 20);
